@@ -31,7 +31,8 @@ def check_formula(case):
     tr = TR.make_trans(case["trans"])
     p = TR.params_of(tr)
     X = case["X"]
-    got = tf.conform7(X[0], X[1], X[2], tr)
+    nk = case.get("num", "float")
+    got = tf.conform7(S.as_kind(X[0], nk), S.as_kind(X[1], nk), S.as_kind(X[2], nk), tr)
     if not (isinstance(got, tuple) and len(got) == 4):
         raise Fail("conform7 did not return (x, y, z, vcv)", observed=repr(got))
     want = H.apply_float(p, X)
@@ -137,7 +138,9 @@ def _lazy(fn):
     return st.deferred(fn)
 
 
-cases = st.fixed_dictionaries({"trans": st.one_of(_lazy(_shipped), _lazy(_shipped), _random(False)), "X": TR.point(5e7)})
+cases = st.fixed_dictionaries({"trans": st.one_of(_lazy(_shipped), _lazy(_shipped), _random(False)),
+                               "X": st.one_of(TR.point(5e7), TR.point(5e7), TR.point(5e7).map(lambda p: [float(round(v)) for v in p])),
+                               "num": S.num_kind})
 cov_cases = st.fixed_dictionaries({"trans": st.one_of(_lazy(_shipped_with_sd), _random(True)), "X": TR.point(5e7),
                                    "vcv": TR.psd3(), "dtype": st.sampled_from(["float64", "float64", "float64", "int64", "float32"])})
 
@@ -192,7 +195,7 @@ SUBCHECKS = [
              shards_quick=2, shards_thorough=8, exhaustive="both",
              rule="all shipped sets: T then -T within 0.01 mm (2 mm for AGD66/84 sets) and within 2 um of the exact composition"),
     SubCheck("formula_generated", check_formula, strategy=cases, nontrivial=_nt, classes=_classes,
-             quick=2500, thorough=250000, shards_quick=3, shards_thorough=12, seq_groups=[["trans"], ["X"]],
+             quick=2500, thorough=250000, shards_quick=3, shards_thorough=12, seq_groups=[["trans"], ["X", "num"]],
              rule="random points x (shipped | random sets): conform7 vs exact formula, 1 micrometre"),
     SubCheck("reverse_generated", check_reverse, strategy=cases, nontrivial=_nt, classes=_classes,
              quick=3000, thorough=300000, shards_quick=3, shards_thorough=12,
